@@ -72,7 +72,7 @@ AInsert(k, v) ==
     /\ \/ /\ live' = live \cup {k}
           /\ val' = [x \in live \cup {k} |-> IF x = k THEN v ELSE val[x]]
           /\ lru' = <<k>> \o lru
-          /\ dead' \in {dead, dead - 1} /\ dead' >= 0
+          /\ dead' \in 0..dead                           \* dead positions may be reused or tidied, never created
           /\ Cardinality(live) + 1 + dead' <= CAP      \* a free position remains
           /\ ret' = Found(v)
        \/ /\ Occupied >= CAP                            \* full: refuse, do nothing
@@ -82,7 +82,8 @@ AInsert(k, v) ==
 
 ALookup(k) ==
     /\ ret' = IF k \in live THEN Found(val[k]) ELSE Void
-    /\ UNCHANGED <<live, val, lru, freeze, dead>>
+    /\ dead' \in 0..dead                  \* a search may tidy up dead positions; it never changes the map or the LRU order
+    /\ UNCHANGED <<live, val, lru, freeze>>
 
 ARemove(k) ==
     /\ IF k \in live
@@ -99,7 +100,8 @@ AUse(k) ==
     /\ k \in live
     /\ lru' = <<k>> \o Without(lru, k)
     /\ ret' = Found(val[k])
-    /\ UNCHANGED <<live, val, freeze, dead>>
+    /\ dead' \in 0..dead
+    /\ UNCHANGED <<live, val, freeze>>
 
 ANext ==
     \/ AFreeze
